@@ -27,7 +27,13 @@ func (c *clipper64) ExecutePolyTree64(clipType ClipType, fillRule FillRule, poly
 	c.buildTree(polytree.PolyPathBase, &oPaths)
 
 	c.clearSolutionOnly()
-	return c.succeeded
+	if !c.succeeded {
+		return false
+	}
+
+	// the open solution was built but never handed to the caller
+	*openPaths = append(*openPaths, Paths64ToPathsD(oPaths)...)
+	return true
 }
 
 func (c *clipper64) ExecuteOC(clipType ClipType, fillRule FillRule, solutionClosed, solutionOpen *Paths64) bool {
